@@ -703,7 +703,24 @@ theorem WOwn.copyAssign {w : World} (h : WOwn w) (s d : Nat) : WOwn (w.copyAssig
                 simp only
                 obtain ⟨e1, e2, e3⟩ := C17.allocTable_fault _ _ _ _ _ ht
                 have hwf2 : h2.WF := ⟨fun b hb => by rw [e3]; exact (hs1 true).wf.1 b (by rw [← e1]; exact hb), by rw [e1]; exact (hs1 true).wf.2⟩
-                exact WOwn.of_same_live (hs1 true) e1 e2 hwf2 ⟨rfl, rfl⟩
+                have hw2 : WOwn { (w.set d (some (vd.clear.setPtr p1))) with heap := h2, threw := true } :=
+                  WOwn.of_same_live (hs1 true) e1 e2 hwf2 ⟨rfl, rfl⟩
+                have := hw2.set_same d (vd.clear.setPtr p1) { (vd.clear.setPtr p1) with cap := 0 } (by simp [World.set]) rfl rfl true
+                refine ⟨this.wf, ?_, ?_, ?_, this.noerr⟩
+                · intro i x hx
+                  exact this.owns i x (by
+                    show ((w.set d _).set d _).vecs i = _
+                    simp only [World.set] at hx ⊢; by_cases hi : i = d <;> simp_all)
+                · intro k1 k2 v1 v2 b h1' h2'
+                  exact this.excl k1 k2 v1 v2 b
+                    (by show ((w.set d _).set d _).vecs k1 = _; simp only [World.set] at h1' ⊢; by_cases hi : k1 = d <;> simp_all)
+                    (by show ((w.set d _).set d _).vecs k2 = _; simp only [World.set] at h2' ⊢; by_cases hi : k2 = d <;> simp_all)
+                · intro b hbl hk
+                  obtain ⟨i, x, hx, hbx⟩ := this.noleak b hbl hk
+                  refine ⟨i, x, ?_, hbx⟩
+                  have hx' : ((w.set d _).set d _).vecs i = some x := hx
+                  simp only [World.set] at hx' ⊢
+                  by_cases hi : i = d <;> simp_all
               | some t =>
                 simp only
                 obtain ⟨hwf2, herr2, hsup, hnew, _⟩ := allocTable_ok h1 (hs1 false).wf _ _ _ _ _ ht
